@@ -392,9 +392,10 @@ func famB(L int, thorough bool) []func(slot int) {
 			_ = thorough
 			for i, v := range seeds {
 				atomic.AddInt64(&seedsTotal, 1)
-				if d.Run(bytes.NewReader(v)) == nil {
+				var serr error
+				if _, _, panicked := engine.Guard(func() { serr = d.Run(bytes.NewReader(v)) }); !panicked && serr == nil {
 					atomic.AddInt64(&seedsAccepted, 1)
-				}
+				} // a panic on the seed itself is reported by the judged run of the same bytes just below
 				emit(v, "seed", -1)
 				strict := !(len(d.Name) > 6 && d.Name[:6] == "Chunk/" && i == 4) // go-mc's own chunk writer output carries an extra boolean
 				if mutants(d, v, strict, emit) {
